@@ -170,12 +170,19 @@ def replay(spec, schedule, patcher):
     return ex
 
 
+def blocked(ex, i, late):
+    """late processes model "a process that starts afterwards": they may only
+    move after a kill happened or after every other process has finished"""
+    return i in late and ex.nkilled == 0 and any(
+        j not in late for j in ex.enabled())
+
+
 def successors(ex, max_kills, tear_points, late):
     """enabled actions in the state of execution ex.
-    late: set of process indices that may only move after a kill happened"""
+    late: set of process indices that start afterwards (see blocked())"""
     acts = []
     for i in ex.enabled():
-        if i in late and ex.nkilled == 0:
+        if blocked(ex, i, late):
             continue
         acts.append(("step", i))
         if ex.nkilled < max_kills and i not in late:
@@ -238,8 +245,7 @@ def expand(arg):
                     msgs = sp["invariant"](ex2)
                     k2 = ex2.key()
                     terminal = not ex2.enabled() or all(
-                        i in sp["late"] and ex2.nkilled == 0
-                        for i in ex2.enabled())
+                        blocked(ex2, i, sp["late"]) for i in ex2.enabled())
                     if terminal:
                         acc.count("terminal_executions")
                         msgs = msgs + sp["final"](ex2)
@@ -332,8 +338,7 @@ def replay_check(factory, name, schedule):
                 msgs = sp["invariant"](ex)
                 if n == len(sched):
                     terminal = not ex.enabled() or all(
-                        i in sp["late"] and ex.nkilled == 0
-                        for i in ex.enabled())
+                        blocked(ex, i, sp["late"]) for i in ex.enabled())
                     if terminal:
                         msgs = msgs + sp["final"](ex)
             finally:
